@@ -148,3 +148,54 @@ Proof.
   intro HC. split; [|reflexivity].
   solve_from O dec HC.
 Qed.
+
+(* nil pointers of every accepted type and the untyped nil: NULL (no *big.Int), no error *)
+Theorem convertToBigInt_nils O : Forall (fun g => convertToBigInt O g = Ok None) (G_pbigint None :: accepted_nils).
+Proof. repeat constructor. Qed.
+
+(* ---------- non-vacuity: the contract is satisfiable (decimal strings of the standard library), and concrete runs ---------- *)
+From Coq Require Import DecimalString DecimalZ DecimalPos Decimal.
+Definition dec10 (s : string) : option Z := option_map Z.of_int (NilZero.int_of_string s).
+Definition fmt10 (v : Z) : string := NilZero.string_of_int (Z.to_int v).
+Lemma dec_fmt v : dec10 (fmt10 v) = Some v.
+Proof.
+  unfold dec10, fmt10. rewrite NilZero.isi.
+  - cbn. rewrite DecimalZ.of_to. reflexivity.
+  - destruct v; cbn; try discriminate. intro H. injection H as H. exact (Unsigned.to_uint_nonnil _ H).
+  - destruct v; cbn; try discriminate. intro H. injection H as H. exact (Unsigned.to_uint_nonnil _ H).
+Qed.
+
+Definition O10 : oracles := {|
+  o_ParseInt := fun s base bits => match dec10 s with Some v => if in_i bits v then Ok v else Err | None => Err end;
+  o_FormatInt := fun v base => fmt10 v;
+  o_BigSetString := fun s base => match dec10 s with Some v => (v, true) | None => (0, false) end;
+  o_BigText := fun v base => fmt10 v;
+  o_f64_to_f32 := fun x => x; o_f32_to_f64 := fun x => x; o_f64_eqb := Z.eqb; o_f64_isnan := fun _ => false;
+  o_BigFloat_Float64 := fun f => (0, 0); o_BigFloat_SetFloat64 := fun x => (0, 0);
+  o_TimeParse := fun _ _ => Err; o_TimeFormat := fun _ _ => ""%string
+|}.
+
+Example contract_satisfiable : oracle_contract O10 dec10.
+Proof.
+  split; cbn.
+  - intros s bits v. destruct (dec10 s) as [w|]; [|discriminate]. destruct (in_i bits w) eqn:E; [|discriminate].
+    intro H. injection H as <-. split; [reflexivity|exact E].
+  - apply dec_fmt.
+  - intros s v. destruct (dec10 s) as [w|]; intro H; inversion H; reflexivity.
+  - apply dec_fmt.
+Qed.
+
+Example switch_examples :
+  convertToInt16 O10 (G_int64 32767) = Ok (32767, false) /\ convertToInt16 O10 (G_int64 32768) = Err /\
+  convertToInt16 O10 (G_string "-32768") = Ok (-32768, false) /\ convertToInt16 O10 (G_string "32768") = Err /\
+  convertToInt64 O10 (G_puint64 (Some 9223372036854775808)) = Err /\ convertToInt64 O10 (G_pint8 None) = Ok (0, true) /\
+  convertToInt64 O10 (G_float64 0) = Err /\
+  convertFromInt64 O10 4294967301 false (D_pint32 false) = Err /\
+  convertFromInt64 O10 (-5) false (D_puint64 false) = Err /\
+  convertFromInt64 O10 300 false (D_pint16 false) = Ok (Some (G_int16 300)) /\
+  convertFromInt64 O10 300 false (D_pstring false) = Ok (Some (G_string "300")) /\
+  convertFromInt64 O10 300 false (D_pint16 true) = Err /\
+  convertToBigInt O10 (G_string "340282366920938463463374607431768211456") = Ok (Some 340282366920938463463374607431768211456) /\
+  convertFromBigInt O10 18446744073709551616 false (D_puint64 false) = Err /\
+  (List.length (to_switches O10) = 4)%nat /\ (List.length (from_switches O10) = 4)%nat.
+Proof. repeat split; vm_compute; reflexivity. Qed.
